@@ -285,7 +285,102 @@ def D15_forest_fold_stale_shape():
     return _cmp(f, [(2, 3, 4, 5), (2, 3, 4, 5)], [a, b])
 
 
+# ---------------------------------------------------------------- C13 (no jax needed)
+def C13_apply_patches_restores():
+    """Exhaustive small family: spec lists of length <= 3 over 2 targets x 2 attrs
+    (one own, one inherited, one missing), both spec kinds, a factory failing at
+    each position, the body raising or not.  After the context exits (normally or
+    not) every attribute must resolve to the same object as before."""
+    import itertools
+    from jax2onnx.plugins._patching import apply_patches, AssignSpec, MonkeyPatchSpec
+
+    class Base:
+        inherited = staticmethod(lambda: "base")
+
+    class T(Base):
+        own = staticmethod(lambda: "own")
+
+    class U:
+        own = "u-own"
+
+    sentinel = object()
+
+    def snapshot():
+        return {(c.__name__, a): getattr(c, a, sentinel) for c in (Base, T, U) for a in ("own", "inherited", "missing")}
+
+    class Boom(Exception):
+        pass
+
+    keys = [(T, "own"), (T, "inherited"), (T, "missing"), (U, "own")]
+    kinds = ["assign", "monkey", "monkey_fail"]
+    n_cases = 0
+    for n in (1, 2, 3):
+        for ks in itertools.product(keys, repeat=n):
+            for kd in itertools.product(kinds, repeat=n):
+                if kd.count("monkey_fail") > 1:
+                    continue
+                for body_raises in (False, True):
+                    specs = []
+                    for i, ((tgt, attr), kind) in enumerate(zip(ks, kd)):
+                        if kind == "assign":
+                            specs.append(AssignSpec(tgt, attr, ("patched", i)))
+                        elif kind == "monkey":
+                            specs.append(MonkeyPatchSpec(tgt, attr, lambda orig, i=i: ("wrapped", i, orig)))
+                        else:
+                            def fail(orig):
+                                raise Boom()
+                            specs.append(MonkeyPatchSpec(tgt, attr, fail))
+                    before = snapshot()
+                    n_cases += 1
+                    raised = None
+                    try:
+                        with apply_patches(specs):
+                            if body_raises:
+                                raise Boom()
+                    except Boom as e:
+                        raised = e
+                    after = snapshot()
+                    if after != before:
+                        diff = [k for k in before if before[k] is not after[k]]
+                        desc = [(t.__name__, a, k) for (t, a), k in zip(ks, kd)]
+                        return False, f"specs {desc}, body_raises={body_raises}: attributes {diff} do not resolve as before"
+                    if body_raises and raised is None:
+                        return False, "exception raised by the with-body was swallowed"
+    return True, f"{n_cases} spec lists restored"
+
+
+def C13_x64_flag_restored():
+    import jax
+    from jax2onnx.converter.conversion_api import _force_jax_x64
+    from jax2onnx.user_interface import _temporary_x64
+
+    class Boom(Exception):
+        pass
+    start = bool(jax.config.jax_enable_x64)
+    try:
+        for cm in (_force_jax_x64, _temporary_x64):
+            for initial in (False, True):
+                for flag in (False, True):
+                    for body in ("ok", "raise"):
+                        jax.config.update("jax_enable_x64", initial)
+                        try:
+                            with cm(flag):
+                                if bool(jax.config.jax_enable_x64) != flag:
+                                    return False, f"{cm.__name__}({flag}) did not set the flag inside the context"
+                                if body == "raise":
+                                    raise Boom()
+                        except Boom:
+                            pass
+                        if bool(jax.config.jax_enable_x64) != initial:
+                            return False, f"{cm.__name__}({flag}) with initial={initial}, body={body}: flag is {bool(jax.config.jax_enable_x64)} afterwards"
+    finally:
+        jax.config.update("jax_enable_x64", start)
+    return True, "flag restored in 16 cases"
+
+
 ALL = {
+    "C13_apply_patches_restores": C13_apply_patches_restores,
+    "C13_x64_flag_restored": C13_x64_flag_restored,
     "D1": D1_max_nonscalar_side_operand,
     "D2": D2_reshape_max_nonscalar,
     "D3a": D3_transpose_chain_intermediate_is_output,
